@@ -7,6 +7,7 @@ import (
 	"go/ast"
 	"go/token"
 	"go/types"
+	"sort"
 	"strconv"
 	"strings"
 )
@@ -101,6 +102,7 @@ func (fc *FuncCtx) evalCall(st *State, call *ast.CallExpr) []Term {
 				return []Term{r}
 			}
 			v := fc.evalAs(st, call.Args[0], sig.Params().At(0).Type())
+			fc.ownRelease(st, call.Args[0], call)
 			fc.oblige(st, "pool.inv", "", fc.objInvTerm(st, oi, v, call), call, "value put into "+exprStr(recvExpr)+" satisfies the pool invariant: "+oi.Clause.Text)
 			return nil
 		}
@@ -114,6 +116,11 @@ func (fc *FuncCtx) evalCall(st *State, call *ast.CallExpr) []Term {
 		// interface method: look for a contract on the interface method name
 		if recvExpr != nil && sig.Recv() != nil && isInterface(sig.Recv().Type()) {
 			c = fc.w.Contracts[key]
+		}
+	}
+	if c == nil && recvExpr != nil && sig.Recv() != nil && isInterface(sig.Recv().Type()) {
+		if rs, ok := fc.dispatchByCases(st, call, fn, recvExpr); ok {
+			return rs
 		}
 	}
 	if c == nil {
@@ -284,6 +291,26 @@ func (fc *FuncCtx) bindArgs(st *State, call *ast.CallExpr, fn *types.Func, recvE
 func (fc *FuncCtx) applyContract(st *State, call *ast.CallExpr, fn *types.Func, recvExpr ast.Expr, c *Contract) []Term {
 	sig := fn.Type().(*types.Signature)
 	args := fc.bindArgs(st, call, fn, recvExpr, c)
+	// caller-side assertions about this call (callassert <callee>: expr)
+	if fc.contract != nil {
+		for k, ca := range fc.contract.CallAsserts {
+			if ca.Tag != fn.Name() {
+				continue
+			}
+			env := fc.codeEnv(st, call.Pos())
+			ai := 0
+			for _, a := range args {
+				if sig.Recv() != nil && a.expr == recvExpr && ai == 0 && a.name == args[0].name && recvExpr != nil && len(args) == sig.Params().Len()+1 && a.typ == sig.Recv().Type() {
+					env.vars["recv"] = a.pre
+					continue
+				}
+				env.vars["arg"+strconv.Itoa(ai)] = a.pre
+				ai++
+			}
+			t := fc.cevalIn(env, ca, call)
+			fc.oblige(st, "call.assert", fn.Name()+"."+strconv.Itoa(k+1), t.S, call, "at the call of "+fn.Name()+": "+ca.Text)
+		}
+	}
 	_, _, rnames := contractParamNames(fn, c)
 	if len(c.Results) == len(rnames) {
 		rnames = c.Results
@@ -384,6 +411,13 @@ func (fc *FuncCtx) writeBack(st *State, a boundArg, post Term, call *ast.CallExp
 	saved := fc.quiet
 	fc.quiet = true
 	defer func() { fc.quiet = saved }()
+	if se, ok := unparen(a.expr).(*ast.SliceExpr); ok {
+		// the callee wrote through a sub-slice: the shared backing array is what changed
+		if _, isSl := post.T.Underlying().(*types.Slice); isSl && fc.addressable(rootLvalue(se)) {
+			fc.writeSliceContents(st, se, post)
+		}
+		return
+	}
 	if !fc.addressable(a.expr) {
 		return
 	}
@@ -541,6 +575,10 @@ func (fc *FuncCtx) callModifies(call *ast.CallExpr) []havocLoc {
 		_ = pt
 		if ue, ok := unparen(ae).(*ast.UnaryExpr); ok && ue.Op == token.AND {
 			ae = ue.X
+		}
+		if se, ok := unparen(ae).(*ast.SliceExpr); ok {
+			ae = rootLvalue(se)
+			path = []string{"[]"}
 		}
 		if !fc.addressable(ae) {
 			continue
@@ -702,7 +740,12 @@ func (fc *FuncCtx) evalBuiltin(st *State, call *ast.CallExpr, name string) []Ter
 			for _, a := range call.Args[1:] {
 				fc.eval(st, a)
 			}
-			return []Term{fc.fresh("chan", t)}
+			c := fc.fresh("chan", t)
+			for _, name := range fc.chanPredsFor(u.Elem()) {
+				fc.w.declareUninterp(fc.w.Uninterps[name])
+				fc.assume(st, "(u_"+name+" "+c.S+")") // no message has been sent on a new channel
+			}
+			return []Term{c}
 		}
 	case "append":
 		return []Term{fc.evalAppend(st, call)}
@@ -841,3 +884,129 @@ func (fc *FuncCtx) evalAppend(st *State, call *ast.CallExpr) Term {
 }
 
 var _ = fmt.Sprint
+
+// dispatchByCases resolves a call through an interface over the repository types that implement
+// it (closed world within the module): the callee contract of each implementer applies under the
+// condition that the receiver holds a value of that type.
+func (fc *FuncCtx) dispatchByCases(st *State, call *ast.CallExpr, fn *types.Func, recvExpr ast.Expr) ([]Term, bool) {
+	iface, ok := fn.Type().(*types.Signature).Recv().Type().Underlying().(*types.Interface)
+	if !ok {
+		return nil, false
+	}
+	recv := fc.eval(st, recvExpr)
+	if fc.reg().SortOf(recv.T) != "Any" {
+		return nil, false
+	}
+	type cand struct {
+		t  types.Type
+		fn *types.Func
+		c  *Contract
+	}
+	var cands []cand
+	var pkgPaths []string
+	for p := range fc.w.Pkgs {
+		pkgPaths = append(pkgPaths, p)
+	}
+	sort.Strings(pkgPaths)
+	for _, pp := range pkgPaths {
+		p := fc.w.Pkgs[pp]
+		names := p.Types.Scope().Names()
+		for _, n := range names {
+			tn, ok := p.Types.Scope().Lookup(n).(*types.TypeName)
+			if !ok || isInterface(tn.Type()) {
+				continue
+			}
+			for _, t := range []types.Type{tn.Type(), types.NewPointer(tn.Type())} {
+				if !types.Implements(t, iface) {
+					continue
+				}
+				obj, _, _ := types.LookupFieldOrMethod(t, true, p.Types, fn.Name())
+				m, ok := obj.(*types.Func)
+				if !ok {
+					continue
+				}
+				if c := fc.w.Contracts[m.FullName()]; c != nil {
+					cands = append(cands, cand{t, m, c})
+				}
+				break
+			}
+		}
+	}
+	if len(cands) == 0 {
+		return nil, false
+	}
+	sig := fn.Type().(*types.Signature)
+	var results []Term
+	for i := 0; i < sig.Results().Len(); i++ {
+		results = append(results, fc.fresh("r_"+fn.Name(), sig.Results().At(i).Type()))
+	}
+	// arguments once
+	var argTerms []Term
+	for i, a := range call.Args {
+		argTerms = append(argTerms, fc.evalAs(st, a, sig.Params().At(i).Type()))
+	}
+	var conds []string
+	post := make([]Term, len(argTerms))
+	copy(post, argTerms)
+	// one havoc per modified location, shared by all candidates (the union of their modifies clauses)
+	havoced := map[string]bool{}
+	for _, cd := range cands {
+		_, pnames, _ := contractParamNames(cd.fn, cd.c)
+		for _, m := range cd.c.Modifies {
+			root, path := modPath(m.Expr)
+			for i, pn := range pnames {
+				k := strconv.Itoa(i) + "/" + strings.Join(path, "/")
+				if pn == root && !havoced[k] {
+					havoced[k] = true
+					post[i] = fc.setPath(post[i], path, func(old Term) Term { return fc.fresh("m_"+fn.Name()+"_"+root, old.T) })
+				}
+			}
+		}
+	}
+	for _, cd := range cands {
+		okc, val := fc.typeMatch(st, recv, cd.t)
+		conds = append(conds, okc)
+		fc.usedContracts[cd.fn.FullName()] = true
+		recvName, pnames, rnames := contractParamNames(cd.fn, cd.c)
+		pre := fc.w.newEnv(cd.c.Pkg)
+		pre.vars[recvName] = val
+		for i, a := range argTerms {
+			pre.vars[pnames[i]] = a
+		}
+		fc.bindGlobals(st, pre, cd.c)
+		sub := st.clone()
+		sub.guard = and(st.guard, okc)
+		for i, r := range cd.c.Requires {
+			t := fc.cevalIn(pre, r, call)
+			fc.oblige(sub, "pre", fn.Name()+"."+types.TypeString(cd.t, func(*types.Package) string { return "" })+"."+strconv.Itoa(i+1), t.S, call, "precondition of "+cd.fn.FullName()+": "+r.Text)
+		}
+		postEnv := fc.w.newEnv(cd.c.Pkg)
+		postEnv.old = pre
+		postEnv.vars[recvName] = val
+		for i := range argTerms {
+			postEnv.vars[pnames[i]] = post[i]
+		}
+		for i, r := range results {
+			postEnv.vars[rnames[i]] = r
+			if i == 0 {
+				postEnv.vars["result"] = r
+			}
+		}
+		fc.bindGlobals(st, postEnv, cd.c)
+		for _, e := range cd.c.Ensures {
+			t := fc.cevalIn(postEnv, e, call)
+			fc.assume(sub, t.S)
+		}
+	}
+	fc.oblige(st, "panic.nilptr", "", or(conds...), call, "interface receiver "+exprStr(recvExpr)+" holds a value of one of the implementing types")
+	// write back modified slice arguments
+	for i, a := range call.Args {
+		if post[i].S != argTerms[i].S && fc.addressable(a) {
+			saved := fc.quiet
+			fc.quiet = true
+			fc.assign(st, a, post[i])
+			fc.quiet = saved
+		}
+	}
+	return results, true
+}
